@@ -67,12 +67,19 @@ class Software:
             other = '{}{}'.format(other.version, other.patch or '')
         else:
             other = str(other)
-        mx = re.match(r'^([\d\.]+\d+)(.*)$', other)
+        mx = re.match(r'^([\d\.]*\d+)(.*)$', other)
         if mx is not None:
             oversion, opatch = mx.group(1), mx.group(2).strip()
         else:
             oversion, opatch = other, ''
-        if self.version < oversion:
+        # Compare dotted-decimal versions numerically, component by component (so that 10.0 is newer than 9.9).  Anything else is compared as a string.
+        sversion_num, oversion_num = Software._version_tuple(self.version), Software._version_tuple(oversion)
+        if sversion_num is not None and oversion_num is not None:
+            if sversion_num < oversion_num:
+                return -1
+            elif sversion_num > oversion_num:
+                return 1
+        elif self.version < oversion:
             return -1
         elif self.version > oversion:
             return 1
@@ -98,6 +105,13 @@ class Software:
         elif spatch > opatch:
             return 1
         return 0
+
+    @staticmethod
+    def _version_tuple(version: str) -> Optional[Tuple[int, ...]]:
+        '''Returns a dotted-decimal version as a tuple of integers (i.e.: "10.0" => (10, 0)), or None if the version is not dotted-decimal.'''
+        if re.match(r'^\d+(\.\d+)*$', version) is None:
+            return None
+        return tuple(int(x) for x in version.split('.'))
 
     def between_versions(self, vfrom: str, vtill: str) -> bool:
         if bool(vfrom) and self.compare_version(vfrom) < 0:
